@@ -1,6 +1,7 @@
 import PrysmVerif.Generated.C15
 import PrysmVerif.Lemmas.C15Grid
 import PrysmVerif.Lemmas.C15Mtf
+import PrysmVerif.Lemmas.C15Difflim
 /-!
 # C15 — image formation obeys the convolution theorem; the MTF is a valid MTF
 
@@ -106,6 +107,30 @@ theorem gen_tfs {K : Type} [Field K] (f : K → K) (pi fx fy a b : K) (u v : Boo
       | (cases u <;> cases v <;>
           simp only [jitterFt, smearFt, pixelFt, olpfFt, Model.C15.jitterFt, Model.C15.smearFt, Model.C15.pixelFt,
             Model.C15.olpfFt, Num.ofInt, if_true, if_false, Bool.false_eq_true] <;> ring_nf)
+
+/-- the analytic transforms of the objects of `objects.py` (`slit_ft`: which widths are present decides between the sum
+of the two sinc's and one of them; `pinhole_ft`: `jinc(fr · 2π·radius)`) are the modelled formulas, over any field -/
+theorem gen_objs {K : Type} [Field K] (f : K → K) (pi fx fy a b : K) (u v : Bool) :
+    slitFt f fx fy a b u v = Model.C15.slitFt f fx fy a b u v ∧
+    pinholeFt f pi fx a = Model.C15.pinholeFt f pi fx a := by
+  refine ⟨?_, ?_⟩ <;>
+    first
+      | rfl
+      | (cases u <;> cases v <;>
+          simp only [slitFt, pinholeFt, Model.C15.slitFt, Model.C15.pinholeFt, Num.ofInt, if_true, if_false,
+            Bool.false_eq_true, Bool.and_true, Bool.and_false, Bool.true_and, Bool.false_and, Bool.not_true, Bool.not_false,
+            Bool.and_self] <;> ring_nf)
+
+/-- `otf.diffraction_limited_mtf`: the core formula `(2/π)(arccos ν − ν√(1−ν²))` and the normalised frequency
+`ν = min(|f / extinction|, 1)`, `extinction = 1/(λ/1000·F#)` (array clamp and scalar clamp agree) are the modelled ones,
+over every ordered field and for every interpretation of `arccos`, `sqrt`, `abs` -/
+theorem gen_difflim {K : Type} [Field K] [LinearOrder K] (arccos sqrt abs : K → K) (pi f w F nu : K) :
+    difflimCore arccos sqrt pi nu = Model.C15.difflimCore arccos sqrt pi nu ∧
+    difflimNu abs f w F = Model.C15.difflimNu abs f w F := by
+  refine ⟨?_, ?_⟩ <;>
+    first
+      | rfl
+      | (simp only [difflimCore, difflimNu, Model.C15.difflimCore, Model.C15.difflimNu, Num.npow, Num.ofInt] <;> ring_nf)
 
 /-! ## the DFT contract, from root-of-unity orthogonality -/
 
@@ -413,7 +438,43 @@ theorem analytic_tf_even (exp sinc cos : K → K) (pi fr fx fy a b : K) (u v : B
   · simp only [Model.C15.pixelFt, neg_mul, hsinc]
   · simp only [Model.C15.olpfFt, mul_neg, hcos]
 
+/-- the analytic object transforms handed to `apply_transfer_functions` as callables: a single slit has unit DC value and a
+pair of crossed slits the value 2 (the sum of two unit slits — an object spectrum, not a normalised blur), a pinhole
+`jinc 0`; all are even in the frequency -/
+theorem object_ft_dc_even (sinc jinc : K → K) (pi fr fx fy a b : K) (u v : Bool)
+    (hsinc0 : sinc 0 = 1) (hsinc : ∀ x, sinc (-x) = sinc x) (hjinc : ∀ x, jinc (-x) = jinc x) :
+    slitFt sinc 0 0 a b u v = (if u && v then 2 else 1) ∧ pinholeFt jinc pi 0 a = jinc 0 ∧
+    slitFt sinc (-fx) (-fy) a b u v = slitFt sinc fx fy a b u v ∧ pinholeFt jinc pi (-fr) a = pinholeFt jinc pi fr a := by
+  simp only [(gen_objs sinc pi _ _ a b u v).1, (gen_objs jinc pi _ 0 a b u v).2]
+  refine ⟨?_, ?_, ?_, ?_⟩
+  · cases u <;> cases v <;> simp [Model.C15.slitFt, hsinc0] <;> norm_num
+  · simp [Model.C15.pinholeFt]
+  · cases u <;> cases v <;> simp [Model.C15.slitFt, neg_mul, hsinc]
+  · simp only [Model.C15.pinholeFt, neg_mul, hjinc]
+
 end analytic
+
+/-- `diffraction_limited_mtf(fno, wavelength, frequencies)` is a valid MTF — with the REAL `arccos`, `√`, `|·|`, `π`, for
+EVERY frequency, wavelength and f-number (no sign or size hypothesis): it is 1 at zero frequency, lies in `[0, 1]`, is even
+in the frequency, and is 0 at and beyond the cut-off `1/(λ/1000·F#)`.  (That it never increases with `|f|` is checked on the
+real code only.) -/
+theorem difflim_valid_mtf (f w F : ℝ) :
+    let mtf := fun f : ℝ => difflimCore Real.arccos Real.sqrt Real.pi (difflimNu (fun x : ℝ => |x|) f w F)
+    mtf 0 = 1 ∧ 0 ≤ mtf f ∧ mtf f ≤ 1 ∧ mtf (-f) = mtf f ∧ (1 ≤ |f / (1 / (w / 1000 * F))| → mtf f = 0) := by
+  intro mtf
+  have hm : ∀ g, mtf g = coreR (Model.C15.difflimNu (fun x : ℝ => |x|) g w F) := fun g => by
+    simp only [mtf, (gen_difflim Real.arccos Real.sqrt (fun x : ℝ => |x|) Real.pi g w F _).1,
+      (gen_difflim Real.arccos Real.sqrt (fun x : ℝ => |x|) Real.pi g w F 0).2, difflimCore_real]
+  obtain ⟨h0, h1⟩ := difflimNu_range f w F
+  refine ⟨?_, ?_, ?_, ?_, fun hc => ?_⟩
+  · rw [hm, difflimNu_zero, coreR_zero]
+  · rw [hm]; exact coreR_nonneg h0 h1
+  · rw [hm]; exact coreR_le_one h0
+  · rw [hm, hm, difflimNu_neg]
+  · rw [hm, difflimNu_cutoff f w F hc, coreR_one]
+
+/-- non-vacuity of the cut-off clause: f/4 at λ = 0.5 µm has its cut-off at 500 cy/mm, and 600 cy/mm lies beyond it -/
+example : (1 : ℝ) ≤ |600 / (1 / (0.5 / 1000 * 4))| := by norm_num [abs_of_nonneg]
 
 /-! ## non-vacuity: the hypotheses are met by the real thing -/
 
@@ -425,6 +486,10 @@ example (n : ℕ) [NeZero n] : IsPrimitiveRoot (Complex.exp (2 * Real.pi * Compl
 noncomputable example : Kernel (ZMod 5 × ZMod 8) ℂ :=
   gridKernel 5 8 _ _ (Complex.isPrimitiveRoot_exp 5 (by norm_num)).inv (Complex.isPrimitiveRoot_exp 8 (by norm_num)).inv
     (by norm_num) (by norm_num)
+
+/-- the hypotheses of `object_ft_dc_even` are met, e.g. by `sinc = jinc = 1 - x²` over ℚ -/
+example : (fun x : ℚ => 1 - x * x) 0 = 1 ∧ ∀ x : ℚ, (fun x : ℚ => 1 - x * x) (-x) = (fun x : ℚ => 1 - x * x) x :=
+  ⟨by norm_num, fun x => by ring⟩
 
 /-- the real part fixes embedded reals -/
 example (r : ℝ) : (fun z : ℂ => (z.re : ℂ)) (Complex.ofRealHom r) = Complex.ofRealHom r := cOps_re r
